@@ -1,12 +1,39 @@
 (* Main.v — single entry point of the executable model: token stream in, canonical text out. *)
 From Coq Require Import String.
-From Minimq Require Import Bytes Varint Utf8 Props Ser De Reader Arena Core Show Parse Machine Run.
+From Minimq Require Import Bytes Varint Utf8 Props Ser De Reader Arena Core Show Parse Machine Run Reply.
 
 Definition run_p {A} (p : parser A) (f : A -> text) (l : list N) : text :=
   match p l with
   | Some (a, []) => f a
   | Some (_, _ :: _) => s2t "BADCASE trailing"
   | None => s2t "BADCASE parse"
+  end.
+
+Definition owned_caps (sel : N) : N * N :=
+  if N.eqb sel 0 then (0, 0) else if N.eqb sel 1 then (1, 1) else if N.eqb sel 2 then (4, 4)
+  else if N.eqb sel 3 then (8, 2) else if N.eqb sel 4 then (2, 8) else if N.eqb sel 5 then (16, 16)
+  else if N.eqb sel 6 then (64, 64) else (128, 128).
+
+Definition show_reply (buf : bytes) (user : list prop) (sel : N) : text :=
+  match from_buffer buf with
+  | Some (RPublish _ _ _ _ _ ps _) =>
+      let inbound := PEncoded ps in
+      s2t "rt=" ++ match response_topic inbound with Some t => s2t "x" ++ hex t | None => s2t "-" end
+      ++ s2t " cd=" ++ match correlation_data inbound with Some c => s2t "x" ++ hex c | None => s2t "-" end
+      ++ s2t " reply=" ++
+         match reply_with inbound user with
+         | None => s2t "none"
+         | Some r => show_sres (enc_publish 4096 {| pq_topic := rp_topic r; pq_pid := None; pq_props := rp_props r;
+                                                     pq_retain := false; pq_qos := Q0; pq_dup := false; pq_payload := [114] |})
+         end
+      ++ s2t " owned=" ++
+         let '(T, C) := owned_caps sel in
+         match reply_owned inbound T C with
+         | OwnNone => s2t "none"
+         | OwnErr => s2t "ERR"
+         | OwnOk t c => s2t "t=x" ++ hex t ++ s2t " c=" ++ match c with Some c => s2t "x" ++ hex c | None => s2t "-" end
+         end
+  | _ => s2t "NOTPUB"
   end.
 
 Definition exec_codec (cmd : N) (l : list N) : option text :=
@@ -31,6 +58,9 @@ Definition exec_codec (cmd : N) (l : list N) : option text :=
                 (fun '(cap, k, pid, rc) =>
                    show_sres (if N.eqb k 12 then enc_pingreq cap else enc_ack cap k pid rc)) l)
   else if N.eqb cmd 10 then Some (run_p p_case show_run l)
+  else if N.eqb cmd 11 then
+    Some (run_p (b <- p_bytes ;; u <- p_list p_prop ;; sel <- p_N ;; p_ret (b, u, sel))
+                (fun '(b, u, sel) => show_reply b u sel) l)
   else None.
 
 Definition exec (l : list N) : text :=
